@@ -914,8 +914,10 @@ class SklearnEKFAdapter(BaseEstimator):
 
             arglist = sorted(list(mapping.keys()))
 
-            params["sensor_noises"][key] = dict(
-                self._inverse_flatten_dict_diagonal(sensor, arglist)
+            # the optimizer is unconstrained, keep sensor variances valid like
+            # the process noise above
+            params["sensor_noises"][key] = nearest_positive_definite(
+                dict(self._inverse_flatten_dict_diagonal(sensor, arglist))
             )
 
         return params
